@@ -32,7 +32,7 @@
 enum { T_INT, T_SIZET, T_STRING };
 static const char *tname[] = { "int", "sizet", "string" };
 static const char *fname[] = { "-", "P", "S", "PS", "SP" };
-typedef struct { int type, ov, mca, smca, env, senv, file, early, api; } cfg_t;
+typedef struct { int type, ov, mca, smca, env, senv, file, early, api, syn2; } cfg_t;   /* syn2: 0 = one synonym; 1 = a second, never used synonym registered AFTER verif_alias; 2 = registered BEFORE it */
 typedef struct { int ok; int rc1, rc2, rcs, src; char v1[96], v2[96], regval[96], sfile[200]; int idx, found, syn_rc; } res_t;
 
 static const char *V_OV[3] = { "11", "11", "ov" }, *V_ENV[3] = { "33", "33", "ev" }, *V_SENV[3] = { "44", "44", "sv" }, *V_SMCA[3] = { "45", "45", "sm" },
@@ -41,11 +41,12 @@ static const char *V_MCA[3][3] = { { "22", "23", "24" }, { "22", "23", "24" }, {
 static char g_dir[128]; static int g_verbose;
 
 static void cfg_str(const cfg_t *c, char *b, size_t cap)
-{ snprintf(b, cap, "type=%s ov=%d mca=%d smca=%d env=%d senv=%d file=%s reg=%s via=%s", tname[c->type], c->ov, c->mca, c->smca, c->env, c->senv, fname[c->file], c->early ? "early" : "late", c->api ? "api" : "init"); }
+{ snprintf(b, cap, "type=%s ov=%d mca=%d smca=%d env=%d senv=%d file=%s reg=%s via=%s syn2=%d", tname[c->type], c->ov, c->mca, c->smca, c->env, c->senv, fname[c->file], c->early ? "early" : "late", c->api ? "api" : "init", c->syn2); }
 static int cfg_parse(const char *s, cfg_t *c)
 {
     char t[16], f[8], r[8], v[8];
-    if (sscanf(s, "type=%15s ov=%d mca=%d smca=%d env=%d senv=%d file=%7s reg=%7s via=%7s", t, &c->ov, &c->mca, &c->smca, &c->env, &c->senv, f, r, v) != 9) return -1;
+    c->syn2 = 0;
+    if (sscanf(s, "type=%15s ov=%d mca=%d smca=%d env=%d senv=%d file=%7s reg=%7s via=%7s syn2=%d", t, &c->ov, &c->mca, &c->smca, &c->env, &c->senv, f, r, v, &c->syn2) < 9) return -1;
     c->type = -1; for (int i = 0; i < 3; i++) if (!strcmp(t, tname[i])) c->type = i;
     c->file = -1; for (int i = 0; i < 5; i++) if (!strcmp(f, fname[i])) c->file = i;
     c->early = !strcmp(r, "early"); c->api = !strcmp(v, "api");
@@ -59,7 +60,10 @@ static int reg_param(const cfg_t *c, res_t *r)
     if (c->type == T_INT) { int cur = -1; idx = parsec_mca_param_reg_int_name("verif", "p1", "test parameter", false, false, atoi(V_DEF[0]), &cur); snprintf(r->regval, sizeof(r->regval), "%d", cur); }
     else if (c->type == T_SIZET) { size_t cur = 0; idx = parsec_mca_param_reg_sizet_name("verif", "p1", "test parameter", false, false, (size_t)atoi(V_DEF[1]), &cur); snprintf(r->regval, sizeof(r->regval), "%zu", cur); }
     else { char *cur = NULL; idx = parsec_mca_param_reg_string_name("verif", "p1", "test parameter", false, false, V_DEF[2], &cur); snprintf(r->regval, sizeof(r->regval), "%s", cur ? cur : "(null)"); }
+    /* a parameter may have several synonyms; "verif_alias2" never carries a value, so the expected results do not depend on syn2 */
+    if (idx >= 0 && c->syn2 == 2) parsec_mca_param_reg_syn_name(idx, "verif", "alias2", false);
     if (idx >= 0) r->syn_rc = parsec_mca_param_reg_syn_name(idx, "verif", "alias", false);
+    if (idx >= 0 && c->syn2 == 1) parsec_mca_param_reg_syn_name(idx, "verif", "alias2", false);
     return idx;
 }
 static void lookup(const cfg_t *c, int idx, int *rc, char *out, size_t cap)
@@ -73,7 +77,7 @@ static void child_run(const cfg_t *c, long serial, res_t *r)
     char path[200]; memset(r, 0, sizeof(*r));
     setenv("PARSEC_MCA_bind_threads", "0", 1);
     setenv("HWLOC_COMPONENTS", "-x86", 0);     /* topology discovery without the cpuid backend (it binds to every core in turn: slow on a loaded machine) */
-    unsetenv("PARSEC_MCA_verif_p1"); unsetenv("PARSEC_MCA_verif_alias"); unsetenv("PARSEC_MCA_mca_param_files");
+    unsetenv("PARSEC_MCA_verif_p1"); unsetenv("PARSEC_MCA_verif_alias"); unsetenv("PARSEC_MCA_verif_alias2"); unsetenv("PARSEC_MCA_mca_param_files");
     if (c->env) setenv("PARSEC_MCA_verif_p1", V_ENV[c->type], 1);
     if (c->senv) setenv("PARSEC_MCA_verif_alias", V_SENV[c->type], 1);
     if (c->file) {
@@ -198,10 +202,11 @@ int main(int argc, char **argv)
     int T = sx_tier_thorough, ovs[3] = { 0, 1, 2 }, novs = T ? 3 : 2, mcas[4] = { 0, 2, 1, 3 }, nmcas = T ? 4 : 2, files[5] = { 0, 1, 3, 2, 4 }, nfiles = T ? 5 : 3, next_reap = 0;
     /* nesting: the sources that interact most vary fastest, so that even a deadline-cut prefix mixes types and levels */
     for (c.api = 0; c.api < (T ? 2 : 1); c.api++) for (c.early = 0; c.early < (T ? 2 : 1); c.early++) for (int ifl = 0; ifl < nfiles; ifl++) for (c.senv = 0; c.senv < 2; c.senv++) for (c.smca = 0; c.smca < 2; c.smca++)
-    for (c.env = 0; c.env < 2; c.env++) for (int im = 0; im < nmcas; im++) for (int io = 0; io < novs; io++) for (c.type = 2; c.type >= 0; c.type--) {
+    for (c.env = 0; c.env < 2; c.env++) for (int im = 0; im < nmcas; im++) for (int io = 0; io < novs; io++) for (c.type = 2; c.type >= 0; c.type--) for (c.syn2 = 0; c.syn2 < 3; c.syn2++) {
         c.file = files[ifl];
         c.ov = ovs[io]; c.mca = mcas[im];
         if (c.api && (c.mca || c.smca)) continue;          /* --mca needs parsec_init */
+        if (c.syn2 && !T && (c.ov || !(c.smca || c.senv || c.file >= 2))) continue;   /* quick: the second synonym only where the synonym name carries a value that is not overridden */
         serial++;
         if (sx_deadline > 0 && sx_now() > sx_deadline) { exhaustive = 0; goto drain; }
         int k; for (k = 0; k < jobs; k++) if (!slots[k].pid) break;
